@@ -10,7 +10,7 @@ from __future__ import annotations
 import itertools
 
 from .. import qast as Q
-from ..common import X, A, V, diff_lists, labels, is_exc, exc_obs
+from ..common import X, A, L, V, diff_lists, labels, is_exc, exc_obs
 from ..isolate import run_isolated
 from ..worlds import build_world
 
@@ -78,7 +78,29 @@ def cases(tier, inst):
                 continue
             for k in IKINDS:
                 yield (("int",) + combo, k, True)
+    # the concatenated expression sits on a CONSTRAINED parent (a predicate-form term with a field constraint, a
+    # sub-query with a condition): only the parents that satisfy the constraint contribute
+    for pk in PARENT_KINDS:
+        for n in (1, 2, 3):
+            for combo in itertools.product(INT_INNER[:6], repeat=n):
+                if n == 3 and (tier == "quick" and hash(combo) % 3):
+                    continue
+                for k in ("ivalue", "iin", "inot_in", "ivalue_setof"):
+                    yield (("intc", pk) + combo, k, True)
     yield from object_cases(tier, inst)
+
+
+PARENT_KINDS = {
+    "pform": ("bound", "x", ("pform", "Item", "P", (), (("q", L(1)),))),
+    "subq": ("sub", ("Q", "an", "entity", X, (("cmp", "eq", A(X, "q"), L(1)),), ())),
+    "subq_attr": ("sub", ("Q", "an", "entity", X, (("cmp", "ne", A(X, "q"), L(2)),), ())),
+}
+
+
+def cc_of(combo):
+    if combo and combo[0] == "intc":
+        return ("cc", A(PARENT_KINDS[combo[1]], "items"))
+    return CC
 
 
 def object_cases(tier, inst):
@@ -98,6 +120,10 @@ def wspec_of(combo):
     if combo and combo[0] == "int":
         rows = tuple((("p", i + 1), ("items", inner)) for i, inner in enumerate(combo[1:]))
         return (("E", "Item", tuple((("p", i),) for i in range(4))), ("P", "Item", rows))
+    if combo and combo[0] == "intc":
+        # the first parent fails the constraint (q == 2), the others alternate
+        rows = tuple((("p", i + 1), ("q", 2 if i % 2 == 0 else 1), ("items", inner)) for i, inner in enumerate(combo[2:]))
+        return (("E", "Item", tuple((("p", i), ("q", 3)) for i in range(4))), ("P", "Item", rows))
     ref = lambda i: ("@", "E", i)      # noqa: E731
     rows = tuple((("p", i + 1), ("items", tuple(ref(j) for j in inner) if isinstance(inner, tuple) else ref(inner)))
                  for i, inner in enumerate(combo))
@@ -110,6 +136,15 @@ VM = ("m", "let", "Item", "E")
 
 def query_of(case):
     combo, k, caching = case
+    if combo and combo[0] == "intc":
+        cc = cc_of(combo)
+        vx = () if combo[1] == "pform" else (VX,)
+        cond = {"iin": ("in", A(M, "p"), cc), "inot_in": ("not", ("in", A(M, "p"), cc))}.get(k)
+        if k == "ivalue":
+            return ("Q", "an", "entity", cc, (), vx)
+        if k == "ivalue_setof":
+            return ("Q", "an", "setof", (cc,), (), vx)
+        return ("Q", "an", "entity", M, (cond,), (VM,) + vx)
     if k == "ivalue":
         return ("Q", "an", "entity", CC, (), (VX,))
     if k == "ivalue_setof":
@@ -131,6 +166,8 @@ def run_case(case, inst):
         world = build_world(wspec_of(combo), inst)
         combined = []
         for p in world["P"]:
+            if combo and combo[0] == "intc" and p.q != inst.v(1):
+                continue
             combined.extend(p.items if isinstance(p.items, tuple) else [p.items])
         try:
             obj, b = Q.build(q, world, inst)
